@@ -125,6 +125,16 @@ def default_from_bounds(b):
     return 0.0
 
 
+def _div(a, b):
+    """IEEE division (x/0 = +-inf, 0/0 = nan) like numpy."""
+    try:
+        return a / b
+    except ZeroDivisionError:
+        if a == 0 or a != a:
+            return math.nan
+        return math.copysign(INF, a) * (math.copysign(1.0, b))
+
+
 def pad_anis(dim, anis):
     a = list(anis) if isinstance(anis, (list, tuple)) else [anis]
     a = [float(x) for x in a][: max(dim - 1, 0)]
@@ -276,7 +286,7 @@ class RefModel:
             self.len_scale = ls[0]
             if len(ls) > 1:
                 ls = ls + [ls[-1]] * (self.dim - len(ls))
-                anis = [x / ls[0] for x in ls[1:]]
+                anis = [_div(x, ls[0]) for x in ls[1:]]
                 if any(not a > 0.0 for a in anis):
                     return "anis"
                 self.anis = anis
@@ -356,8 +366,16 @@ class RefModel:
                 return "skipcheck"
 
         snap = self.snapshot()
+        cur0 = {
+            "var": self.var,
+            "len_scale": self.len_scale,
+            "nugget": self.nugget,
+            "anis": self.anis,
+        }.get(name, self.opt.get(name))
+        was_in = in_bounds(cur0, b)
         why = f()
-        if why == "skipcheck":
+        if why == "skipcheck" or was_in:
+            # only the named argument is looked at when it already fits
             return ("ok", None)
         bad = self._check()
         if bad is not None:
